@@ -23,6 +23,8 @@ mod crumb;
 mod gen;
 #[path = "../../tzsim/src/prng.rs"]
 mod prng;
+#[path = "../../tzsim/src/refmodel.rs"]
+mod refmodel;
 #[path = "../../tzsim/src/scn.rs"]
 mod scn;
 #[path = "../../tzsim/src/spec.rs"]
